@@ -40,8 +40,16 @@ def request_url(iface, scheme, server, host, root, path, query):
     req = drivers.Req(path=path.encode("utf-8"), root=root.encode("utf-8"), query=query.encode("utf-8"),
                       headers=[("Host", host)] if host is not None else [], scheme=scheme, server=(server[0], port))
     if iface == "wsgi":
-        return wsgi.Request(drivers.to_environ(req)).url
+        env = drivers.to_environ(req)
+        if (len(path) + len(query) + len(root) + len(scheme)) % 2:
+            # PEP 3333: SCRIPT_NAME, PATH_INFO and QUERY_STRING may be left out when they would be empty
+            for k in ("SCRIPT_NAME", "PATH_INFO", "QUERY_STRING"):
+                if env.get(k) == "":
+                    del env[k]
+        return wsgi.Request(env).url
     sc = drivers.to_scope(req)
+    if (len(path) + len(query) + len(root)) % 2 and root == "":
+        sc.pop("root_path", None)  # optional in ASGI (default "")
     sc["scheme"] = scheme
     if server[1] == "none":
         sc["server"] = (server[0], None)
